@@ -127,12 +127,12 @@ func errClass(err error) string {
 }
 
 type ctx struct {
-	c     *runner.Ctx
-	cs    *cencgen.Case
-	cfg   cencgen.Config
-	path  string
-	pre   string // key prefix scheme/family
-	evals int64
+	c          *runner.Ctx
+	cs         *cencgen.Case
+	cfg        cencgen.Config
+	path       string
+	pre        string // key prefix scheme/family
+	evals      int64
 	nontrivial bool
 }
 
